@@ -58,7 +58,7 @@ def observe(ctx, game, case, where: str) -> bool:
 
 def run_case(ctx, case) -> None:
     n, values = case["n"], case["values"]
-    game = sut.new_game(n, case["computer"])
+    game = sut.object_for_case(ctx, case, case["computer"])
     step = [0]
 
     def on_compute(g):
